@@ -265,6 +265,7 @@ func c31RunOnce(t *testing.T, cj []byte, res *vfResult) {
 	logf := func(f string, a ...any) { lines = append(lines, fmt.Sprintf(f, a...)) }
 	arrivals := make([]int, n)
 	refused := make([]int, n)
+	keptAfterEmission := make([]int, n)
 	inSample := make([]int, n) // 1-based index of the sample that contains the packet
 	var emitted []c31Emitted
 	lastMax := -1
@@ -357,8 +358,8 @@ func c31RunOnce(t *testing.T, cj []byte, res *vfResult) {
 		for _, k := range run {
 			if inSample[k] != 0 {
 				cls := "packet-in-two-samples"
-				if arrivals[k]-refused[k] > 1 {
-					cls += ":pushed-more-than-once" // the builder kept more than one copy of this packet
+				if keptAfterEmission[k] > 0 {
+					cls += ":pushed-more-than-once" // the builder took another copy of a packet it had already emitted
 				}
 				res.violate(cls, fmt.Sprintf("%s: packet %s is in sample %d and again in sample %d (pushed %d time(s))\n%s", when, desc(k), inSample[k], len(emitted)+1, arrivals[k], history()))
 				return
@@ -419,7 +420,12 @@ func c31RunOnce(t *testing.T, cj []byte, res *vfResult) {
 			sb.Push(&rtp.Packet{Header: rtp.Header{Version: 2, PayloadType: 96, SequenceNumber: p.seq, Timestamp: p.ts, Marker: p.tail, SSRC: 0x31},
 				Payload: append([]byte{}, p.payload...)})
 			if arrivals[d.K] > 1 && released > rel0 {
-				refused[d.K]++ // a repeated copy the builder gave back at once (it never held two copies)
+				refused[d.K]++ // a repeated copy the builder gave back at once
+			} else if arrivals[d.K] > 1 && inSample[d.K] != 0 {
+				// a copy that arrived after the packet had been emitted, and was kept: only then can the
+				// second emission be the second copy (copies that arrive while the first one is still
+				// buffered share its slot)
+				keptAfterEmission[d.K]++
 			}
 			when := fmt.Sprintf("pop after push %d", di)
 			switch {
